@@ -85,7 +85,14 @@ class SimCluster:
             self.before_cmd(cmd, n, argv)
         request = (tuple(argv[1:]), stdin or "")
         fault = next((f for f in self.faults if f.cmd == cmd and (f.k == n or (f.sticky and f.request == request))), None)
-        if fault is not None:
+        if fault is not None and fault.kind == "partial-error":
+            # the command answers, but only in part: a truncated listing, an error message on stderr, exit status 0
+            handler = getattr(self, "_cmd_" + cmd, None)
+            rc, out, err = handler(list(argv[1:]), stdin or "")
+            lines = out.splitlines(keepends=True)
+            out = "".join(lines[: max(1, len(lines) // 2)]) if len(lines) > 1 else out
+            rc, err = 0, err + f"{cmd}: error: Socket timed out on send/recv operation\n"
+        elif fault is not None:
             fault.request = request
             rc, out, err = self._fault(cmd, fault.kind)
         else:
